@@ -807,6 +807,9 @@ P('C20', 'other',
   {'R20.1': 4, 'R20.2': 3})
 
 
+import ast as _ast_mod
+
+
 def _mirror_kernels(ctx, rule='R08.2') -> List[Ob]:
     """rho-mirror of the ISI edge rules and of the SPIKE auxiliary spikes, on the values the kernels actually compute"""
     from .rules_kernelspec import _parts, _paths, _returned_names
@@ -899,11 +902,14 @@ def _mirror_kernels(ctx, rule='R08.2') -> List[Ob]:
         params = [a.arg for a in k.node.args.args]
         pre, loop, post = _parts(k)
         pro = _paths(e, k, pre)
-        env0, stores0, _c = pro[0]
-        aux = {}
-        for key, r in stores0:
-            if r[0] == 'store' and C.is_poly(r[1]) and C.is_const(r[1]) and key not in _returned_names(k):
-                aux.setdefault(key, {})[int(C.const_value(r[1]))] = r[2]
+        # cells merged over all prologue paths (the same cells filled by `x[0] = a if c else b` or under `if c:`)
+        from .rules_kernelspec import _const_cells_over_paths
+        lens_ = [C.atom(('call', 'len', (C.atom(('n', p_)),))) for p_ in params[:2]]
+        for it_ in pre:
+            if it_[0] == 'simple' and isinstance(it_[1], _ast_mod.Assign) and isinstance(it_[1].value, _ast_mod.Name) \
+                    and isinstance(it_[1].targets[0], _ast_mod.Name) and it_[1].value.id in params[:2]:
+                lens_.append(C.atom(('call', 'len', (C.atom(('n', it_[1].value.id)),))))
+        aux = _const_cells_over_paths(pro, _returned_names(k), [C.mk_cmp('gt', L_, C.ONE) for L_ in lens_])
         arrays = {}
         for key, cells in aux.items():
             for v in cells.values():
